@@ -268,7 +268,12 @@ def gen_pan(rng, n):
             keys.add(rng.randrange(-K_ONE, K_ONE + 1))
         else:
             keys.add(f32_key(rng.uniform(-1.0, 1.0)))
-    return {"kind": "pan", "keys": sorted(k for k in keys if abs(k) <= K_ONE), "src": "sweep"}
+    keys = {k for k in keys if abs(k) <= K_ONE}
+    # beyond the ends of the range (hard left / hard right all the same)
+    for v in (1.0000001, 1.5, 2.0, 100.0, 1.0e30):
+        keys.update([f32_key(v), f32_key(-v)])
+    keys.update([K_ONE + 1, K_ONE + 2, -(K_ONE + 1), -(K_ONE + 2)])
+    return {"kind": "pan", "keys": sorted(keys), "src": "sweep"}
 
 
 # ----------------------------------------------------------------------------- validation
